@@ -60,17 +60,35 @@ macro_rules! run_map {
     };
 }
 
+/// `a | b | c ...` for the members of one level, associated in one of three ways (the table is the same
+/// whichever way the chain was put together): 0 = left-nested, 1 = right-nested, 2 = balanced.
+fn chain<T: std::ops::BitOr<Output = T>>(mut items: Vec<T>, shape: usize) -> T {
+    match shape % 3 {
+        0 => {
+            let mut it = items.into_iter();
+            let first = it.next().unwrap();
+            it.fold(first, |a, b| a | b)
+        }
+        1 => {
+            let last = items.pop().unwrap();
+            items.into_iter().rev().fold(last, |acc, x| x | acc)
+        }
+        _ => {
+            if items.len() == 1 {
+                return items.pop().unwrap();
+            }
+            let right = items.split_off(items.len() / 2);
+            chain(items, 2) | chain(right, 2)
+        }
+    }
+}
+
 fn run_pratt(t: &Tab, toks: &[u8]) -> Result<Value, String> {
     let input = "x".repeat(toks.len());
     guarded(|| {
         let mut p = PrattParser::<u8>::new();
         for lv in levels(t) {
-            let mut it = lv.iter();
-            let k0 = *it.next().unwrap();
-            let mut op = mk_op(k0, &t[k0 - 1].0);
-            for k in it {
-                op = op | mk_op(*k, &t[*k - 1].0);
-            }
+            let op = chain(lv.iter().map(|k| mk_op(*k, &t[*k - 1].0)).collect(), toks.len() + t.len());
             p = p.op(op);
         }
         run_map!(p, pairs_of(&input, toks))
@@ -115,12 +133,7 @@ fn run_climber(t: &Tab, toks: &[u8]) -> Result<Value, String> {
         let mut ops = vec![];
         for lv in levels(t) {
             let mk = |k: usize| Operator::new(k as u8, if t[k - 1].0 == "inl" { prec_climber::Assoc::Left } else { prec_climber::Assoc::Right });
-            let mut it = lv.iter();
-            let mut op = mk(*it.next().unwrap());
-            for k in it {
-                op = op | mk(*k);
-            }
-            ops.push(op);
+            ops.push(chain(lv.iter().map(|k| mk(*k)).collect(), toks.len() + t.len()));
         }
         let c = PrecClimber::new(ops);
         c.climb(
